@@ -297,4 +297,49 @@ theorem decodeString_encodeString (s rest : List Nat) :
   simp only [encodeString, decodeString, List.cons_append, List.append_assoc]
   have := unescapeFuel_escapeBody s rest ((escapeBody s ++ ([0x22] ++ rest)).length + 1) [] (by simp only [List.length_append]; omega)
   simpa using this
+/-! ### hex-encoded binary columns -/
+
+theorem decodeHexLoop_eq : ∀ (s buf out : List Nat),
+    decodeHexLoop buf out s = (decodeHexSimple s).map (fun r => out ++ (buf ++ r))
+  | [], buf, out => by simp [decodeHexLoop, decodeHexSimple]
+  | [c], buf, out => by simp [decodeHexLoop, decodeHexSimple, Option.map_map, Function.comp_def]
+  | a :: b :: rest, buf, out => by
+    rw [decodeHexLoop, decodeHexSimple]
+    cases ha : decodeHexDigit a with
+    | none => simp
+    | some h =>
+      cases hb : decodeHexDigit b with
+      | none => simp
+      | some l =>
+        simp only
+        split
+        · rw [decodeHexLoop_eq rest]
+          cases decodeHexSimple rest <;> simp
+        · rw [decodeHexLoop_eq rest]
+          cases decodeHexSimple rest <;> simp
+
+theorem decodeHexToWriter_eq (s : List Nat) : decodeHexToWriter s = decodeHexSimple s := by
+  unfold decodeHexToWriter
+  rw [decodeHexLoop_eq]
+  cases decodeHexSimple s <;> simp
+
+theorem decodeHexDigit_hexDigit : ∀ n, n < 16 → decodeHexDigit (hexDigit n) = some n := by decide
+
+theorem decodeHexSimple_encodeHex (bs : List Nat) (h : ∀ b ∈ bs, b < 256) :
+    decodeHexSimple (encodeHex bs) = some bs := by
+  induction bs with
+  | nil => simp [encodeHex, decodeHexSimple]
+  | cons b bs ih =>
+    have hb : b < 256 := h b (by simp)
+    have e : encodeHex (b :: bs) = hexDigit (b / 16 % 16) :: hexDigit (b % 16) :: encodeHex bs := by
+      simp [encodeHex]
+    rw [e, decodeHexSimple, decodeHexDigit_hexDigit _ (by omega), decodeHexDigit_hexDigit _ (by omega),
+      ih (fun x hx => h x (by simp [hx]))]
+    simp only
+    have sh : (b / 16 % 16) <<< J_BIN_SHIFT ||| b % 16 = b / 16 % 16 * 16 + b % 16 := by
+      show (b / 16 % 16) <<< 4 ||| b % 16 = _
+      rw [← Nat.shiftLeft_add_eq_or_of_lt (by omega : b % 16 < 2 ^ 4), Nat.shiftLeft_eq]
+    rw [sh]
+    congr 2
+    omega
 end ArrowModel.C17.Json
